@@ -332,6 +332,18 @@ func utilSession(tag byte, n int) func(l logger) {
 		db := newDst(l)
 		berr := wsutil.ControlHandler{Src: bytes.NewReader(bad), Dst: db, State: ws.StateClientSide, DisableSrcCiphering: true}.Handle(ws.Header{Fin: true, OpCode: ws.OpClose, Length: int64(len(bad))})
 		l.Logf("bad-close err=%v reply=%s", berr, framesLog(db.Bytes()))
+		// a writer over a buffer the application owns (its capacity happens to be a pool class),
+		// flushing disabled, and a message that outgrows it; the application keeps using its
+		// buffer for something else until the end of the session
+		own := make([]byte, 128)
+		dg := newDst(l)
+		wg := wsutil.NewWriterBuffer(dg, ws.StateServerSide, ws.OpBinary, own)
+		wg.DisableFlush()
+		wg.Write(fill(300, tag+11))
+		wg.Flush()
+		l.Logf("grown-writer %s", framesLog(dg.Bytes()))
+		copy(own, fill(128, tag+12))
+		defer func() { l.Logf("application buffer at the end %s", sum(own)) }()
 		// a pool-class writer whose connection broke under it: it goes back to the pool in its
 		// failed state (what a server does with the writer of a dead connection)
 		dead := newDst(l)
